@@ -89,8 +89,11 @@ class ReqEngine(c01.CallEngine):
   allow_req = True
 
   def gen_arg(self, rng):
-    if rng.random() < 0.3:
+    r = rng.random()
+    if r < 0.3:
       return ['req']
+    if r < 0.4:
+      return ['obj', 'ANY']       # an argument whose __eq__ answers True to everything
     return ginm.gen_plain(rng, 1)
 
   def corpus(self):
